@@ -72,4 +72,4 @@ for case in req["cases"]:
         r = {"error": type(e).__name__ + ": " + str(e)[:200]}
     r["id"] = case["id"]
     results.append(r)
-print(json.dumps({"mode": mode, "results": results}))
+print(json.dumps({"mode": mode, "results": results}, default=__import__("_util").jdefault))
